@@ -226,7 +226,7 @@ def sweep_stale_scratch() -> None:
     except OSError:
         return
     for n in names:
-        m = re.match(r"vsim-(?:zygote-|out-)?(\d+)[-.]", n)
+        m = re.match(r"vsim-(?:zygote-|out-|stack-)?(\d+)[-.]", n)
         if not m:
             continue
         if os.path.exists(f"/proc/{m.group(1)}"):
